@@ -102,6 +102,7 @@ func constsWithPolarity(v ssa.Value, fn *ssa.Function) []constWhen {
 }
 
 func checkC13(p *Prog, r *Report) {
+	ruleSharedStateInGoroutines(p, r, "R13.13", false)
 	ruleStatusFileOnly(p, r)
 	ruleScannerErr(p, r, "R13.11", map[string]bool{"doapprove": true, "status": true, "missing-approve": true, "main": true, "device": true, "errlog": true})
 	ruleMustCalls(p, r, "R-PH", "C13")
